@@ -8,6 +8,7 @@ assigned from the arguments, `return` becomes an assignment to the call's destin
 After that the helper is dropped from the body list (unless it is also used as a function value or is recursive).
 Nothing is judged here."""
 import copy
+import re
 import json
 import os
 
@@ -273,11 +274,14 @@ def _splice(caller, bi, helper):
         d = t['dest']['l']
         uses_elsewhere = False
         for i2, b2 in enumerate(caller['blocks']):
+            if b2.get('cleanup'):
+                continue          # unwinding paths drop the temporary (a Result<Tag> owns a String): not a use of its value
             for st in b2['stmts']:
                 if _mentions(st, d):
                     uses_elsewhere = True
             t2 = b2['term']
-            if t2 is not None and t2 is not t and b2 is not tgt_blk and _mentions({k: v for k, v in t2.items() if k != 'fn'}, d):
+            if t2 is not None and t2 is not t and b2 is not tgt_blk and t2.get('k') != 'drop' and \
+                    _mentions({k: v for k, v in t2.items() if k != 'fn'}, d):
                 uses_elsewhere = True
         if tt and tt['k'] == 'call' and tt.get('fn') and tt['fn'].get('orig', '').endswith('Try::branch') and len(tt['args']) == 1 and \
                 tt['args'][0].get('p', {}).get('l') == d and not uses_elsewhere:
@@ -294,10 +298,27 @@ def _splice(caller, bi, helper):
     blk['term'] = {'k': 'goto', 'target': boff, 'span': span, 'macros': t.get('macros', []), 'inlined_call': helper['path']}
     # `helper(..)?`: find the Break arm of the `?` so that the helper's error exits can be routed to it directly
     brk = None
+    brk_block, brk_dest = target, dest        # the Try::branch block the error exits are copied from, and the local it reads
     if caller['locals'][loff].get('err_exit'):
-        bB = caller['blocks'][target]
-        tC = caller['blocks'][bB['term']['target']]['term'] if isinstance(bB['term'].get('target'), int) else None
-        if tC and tC['k'] == 'switch' and not caller['blocks'][bB['term']['target']]['stmts'][1:]:
+        bB = caller['blocks'][target] if isinstance(target, int) else None
+        # `helper(..).map(f)?` / `.map_err(g)?`: an Err passes through these unchanged (as far as "it is an Err" goes), so the error
+        # exits may skip them and go to the `?` behind
+        for _ in range(3):
+            tB = bB['term'] if bB is not None else None
+            if tB and tB['k'] == 'call' and re.sub(r'::<[^>]*>', '', (tB.get('fn') or {}).get('orig', '')) in ('std::result::Result::map', 'std::result::Result::map_err') \
+                    and tB['args'] and tB['args'][0].get('k') in ('move', 'copy') and not tB['args'][0]['p']['p'] \
+                    and tB['args'][0]['p']['l'] == brk_dest['l'] and not tB['dest']['p'] and isinstance(tB.get('target'), int) and not bB['stmts']:
+                brk_dest, brk_block = tB['dest'], tB['target']
+                bB = caller['blocks'][brk_block]
+            else:
+                break
+        tC = caller['blocks'][bB['term']['target']]['term'] if bB is not None and bB['term'] and isinstance(bB['term'].get('target'), int) and \
+            bB['term']['k'] == 'call' and (bB['term'].get('fn') or {}).get('orig', '').endswith('Try::branch') else None
+        # (besides the discriminant read the block may set drop flags - constants assigned to bool locals - when the value owns heap data)
+        def _plain(st_):
+            return st_['k'] != 'assign' or st_['rv']['k'] == 'discr' or (st_['rv']['k'] == 'use' and st_['rv']['op'].get('k') == 'const')
+        if tC and tC['k'] == 'switch' and all(_plain(st_) for st_ in caller['blocks'][bB['term']['target']]['stmts']) and \
+                sum(1 for st_ in caller['blocks'][bB['term']['target']]['stmts'] if st_['k'] == 'assign' and st_['rv']['k'] == 'discr') <= 1:
             arms = dict((v, b_) for v, b_ in tC['targets'])
             if 1 in arms and 0 in arms:
                 brk = arms[1]
@@ -358,13 +379,13 @@ def _splice(caller, bi, helper):
                         nt['was_indirect'] = nt.pop('indirect')
     if brk is not None:
         # error exits: blocks of the inlined copy that set the helper's return slot to an error value
-        bB = caller['blocks'][target]
+        bB = caller['blocks'][brk_block]
         first = boff
         exits = _error_exits(caller, boff, nhelper, loff)
         for i, how in exits:
             n0 = len(caller['blocks'])
             # N: dest = move h0 ; B': _c = Try::branch(move dest) ; C': goto break-arm
-            caller['blocks'].append({'stmts': [{'k': 'assign', 'p': copy.deepcopy(dest), 'rv': {'k': 'use', 'op': {'k': 'move', 'p': {'l': loff, 'p': [], 'ty': helper['locals'][0]['ty']}}},
+            caller['blocks'].append({'stmts': [{'k': 'assign', 'p': copy.deepcopy(brk_dest), 'rv': {'k': 'use', 'op': {'k': 'move', 'p': {'l': loff, 'p': [], 'ty': helper['locals'][0]['ty']}}},
                                                 'span': span, 'macros': []}],
                                      'term': {'k': 'goto', 'target': n0 + 1, 'span': span, 'macros': []}, 'cleanup': False, 'err_dup': True})
             bp = copy.deepcopy(bB)
